@@ -24,6 +24,13 @@ import (
 	"verif/ref/agentmodel"
 )
 
+// tapper records the request frames a client writes while it is switched on.
+type tapper interface {
+	tapStart()
+	tapStop()
+	frames() [][]byte
+}
+
 // extra harness-level operation kinds (beyond agentmodel.Kind)
 const (
 	kAdvance agentmodel.Kind = 100 + iota
@@ -34,10 +41,9 @@ const (
 type path struct {
 	name    string // "direct", "serial", "pipelined", "unix", "openssh"
 	ag      agent.ExtendedAgent
-	viaList bool  // agent client: Signers is built on List
-	tap     *half // client->server byte tap (nil if none)
-	tapFn   func() [][]byte
-	extWrap bool // server side is the harness wrapper implementing *@verif.test extensions
+	viaList bool   // agent client: Signers is built on List
+	tap     tapper // client->server byte tap (nil if none)
+	extWrap bool   // server side is the harness wrapper implementing *@verif.test extensions
 }
 
 type heldSigner struct {
@@ -174,21 +180,21 @@ func (w *world) do(h hop) bool {
 		if h.unkCons {
 			ak.ConstraintExtensions = []agent.ConstraintExtension{{ExtensionName: "nosuch-constraint@verif.test", ExtensionDetails: []byte{1, 2, 3}}}
 		}
-		before := 0
-		if h.p.tapFn != nil {
-			before = len(h.p.tapFn())
+		if h.p.tap != nil {
+			h.p.tap.tapStart()
 		}
 		err := h.p.ag.Add(ak)
 		obs.Err = err != nil
 		desc = fmt.Sprintf("Add(%s,%q,life=%d,confirm=%v,unk=%v)", h.key.name, clip(h.comment), h.life, h.confirm, h.unkCons)
-		if h.p.tapFn != nil {
-			fr := h.p.tapFn()
-			if len(fr) != before+1 {
-				w.fail("client-add-frame-count", fmt.Sprintf("Add wrote %d request frames", len(fr)-before), nil)
+		if h.p.tap != nil {
+			h.p.tap.tapStop()
+			fr := h.p.tap.frames()
+			if len(fr) != 1 {
+				w.fail("client-add-frame-count", fmt.Sprintf("Add wrote %d request frames", len(fr)), nil)
 				return false
 			}
-			if e := checkAddFrame(fr[before], h); e != "" {
-				w.fail("client-add-frame-encoding", e, map[string]any{"frame": mon.Hex(fr[before]), "op": desc})
+			if e := checkAddFrame(fr[0], h); e != "" {
+				w.fail("client-add-frame-encoding", e, map[string]any{"frame": mon.Hex(fr[0]), "op": desc})
 				return false
 			}
 			m.Count("add_frames_decoded", 1)
